@@ -22,7 +22,9 @@ PROPERTY = {
              "model has >=2 equations and >=1 connection, or uses interp / a solver override; distinct = canonical JSON."),
     "assumptions": [
         "float32 arm compared at 2e-4 relative, float64 at 1e-9*M+1e-12 (vf) / 1e-8 (fixed-step trajectories)",
-        "a model that the backend (or NumPy) refuses with an exception is counted as rejected, not as a violation",
+        "a model that the NumPy backend itself refuses is counted as rejected; a model that NumPy compiles/runs and the other "
+        "backend refuses (inside the generated feature set: Fortran without vectorisation, elementary functions, sigmoid, "
+        "pi/E, solvers the backend declares) is a violation",
         "julia/matlab backends and GPU devices are not available",
     ],
 }
@@ -48,18 +50,37 @@ def positions(c, rm):
     return pos
 
 
+def add_constant_term(spec, draw):
+    """add c*E, c*pi or c*E*pi to one differential equation: every backend has its own definition of the documented
+    constants (numpy import, torch tensors, Fortran parameters)"""
+    ops = sorted(o for nt in spec["ntypes"].values() for o in nt["ops"])
+    o = ops[draw(st.integers(0, len(ops) - 1))]
+    des = [e for e in spec["ops"][o]["eqs"] if e[1]]
+    if not des:
+        return spec
+    e = des[draw(st.integers(0, len(des) - 1))]
+    c = ["num", draw(st.sampled_from([0.5, 0.25, 1.5]))]
+    k = draw(st.sampled_from([["const", "E"], ["const", "pi"], ["bin", "*", ["const", "E"], ["const", "pi"]],
+                              ["bin", "/", ["const", "pi"], ["const", "E"]]]))
+    e[2] = ["bin", draw(st.sampled_from(["+", "-"])), e[2], ["bin", "*", c, k]]
+    return spec
+
+
 class VfArm(Arm):
     name = "vf"
     budget = {"quick": 400, "thorough": 5000}
     min_per_shard = 12
     case_timeout = 240
-    required_labels = ("torch", "jax", "fortran", "float32", "vec", "returned_array")
+    required_labels = ("torch", "jax", "fortran", "float32", "vec", "returned_array", "const_E:fortran", "const_pi:fortran",
+                       "const_pi:torch", "const_E:jax")
 
     def strategy(self, ctx):
         @st.composite
         def case(draw):
             be = draw(st.sampled_from(["torch", "torch", "torch", "jax", "jax", "jax", "fortran"]))
             spec = base_spec(draw, small=(be == "fortran"))
+            if draw(st.integers(0, 2)) == 0:
+                spec = add_constant_term(spec, draw)
             vec = draw(st.booleans()) if be != "fortran" else False
             rm = RefModel(spec)
             return {"spec": spec, "cfg": {"backend": be, "vectorize": vec,
@@ -80,6 +101,10 @@ class VfArm(Arm):
         rm = RefModel(spec)
         sp = rm.state_paths
         res.labels = [be, prec, "vec" if vec else "novec", "in_place" if inpl else "returned_array"]
+        from ..finding_predicates import _all_asts, _uses_const
+        for cn in ("E", "pi"):
+            if any(_uses_const(a, cn) for a in _all_asts(case)):
+                res.labels.append(f"const_{cn}:{be}")
         n_eq = sum(len(spec["ops"][o]["eqs"]) for p, nt in spec["nodes"] for o in spec["ntypes"][nt]["ops"])
         res.nontrivial = n_eq >= 2 and bool(rm.wiring or rm.edges)
         try:
@@ -106,7 +131,11 @@ class VfArm(Arm):
         except HarnessError:
             raise
         except Exception as e:
-            res.rejected = f"{be}-refuses:{type(e).__name__}"
+            # the generated models stay inside what every backend accepts (Fortran: vectorize=False; elementary functions,
+            # sigmoid, the documented constants): a backend that cannot compile what the NumPy backend compiles does not
+            # "yield a function that agrees"
+            res.violate(exc_bucket(f"backend-refuses:{be}", e),
+                        f"{be} backend raised on a model the NumPy backend compiles: {short_exc(e)}")
             return res
         if be == "fortran" and "F-18a" in ctx.active_findings:
             from ..model import LAST_FORTRAN_FILE, fortran_inexact_literals
@@ -218,7 +247,8 @@ class InterpArm(Arm):
         except HarnessError:
             raise
         except Exception as e:
-            res.rejected = f"{be}-refuses:{type(e).__name__}"
+            res.violate(exc_bucket(f"backend-refuses:{be}", e),
+                        f"{be} backend raised on a model the NumPy backend compiles: {short_exc(e)}")
             return res
         if be == "fortran" and "F-18a" in ctx.active_findings:
             from ..model import LAST_FORTRAN_FILE, fortran_inexact_literals
@@ -338,8 +368,8 @@ class TrajArm(Arm):
         except HarnessError:
             raise
         except Exception as e:
-            res.rejected = f"{be}-refuses:{type(e).__name__}"
-            res.info["backend_refusals"] = 1
+            res.violate(exc_bucket(f"backend-refuses:{be}:{solver}", e),
+                        f"{be} backend, solver {solver}: run() raised on a model and settings that the NumPy backend runs: {short_exc(e)}")
             return res
         if a.shape != a0.shape:
             res.violate(f"shape:{be}:{solver}", f"{be} returned {a.shape}, NumPy {a0.shape} (T={T}, dt={dt}, dts={dts})")
